@@ -59,12 +59,39 @@ class _HalfWrittenFile:
         raise OSError(f"injected #{self._k}: write failed while closing (half-written file)")
 
 
+class _SlowCloseFile:
+    """Write handle whose close() is delayed: widens the window between "data handed to the
+    file" and "file closed" - where tasks sharing state by mistake step on each other."""
+
+    def __init__(self, f, delay):
+        self._f, self._delay = f, delay
+
+    def __getattr__(self, name):
+        return getattr(self._f, name)
+
+    def __enter__(self):
+        return self
+
+    def __exit__(self, *a):
+        self.close()
+
+    def close(self):
+        if not self._f.closed:
+            time.sleep(self._delay)
+            self._f.close()
+
+
 class MonFS(LocalFileSystem):
     """LocalFileSystem that records, delays and injects faults."""
     cachable = False
 
-    def __init__(self, faults=None, delay_seed=None, delay_p=0.0, delay_max=0.004):
+    def __init__(self, faults=None, delay_seed=None, delay_p=0.0, delay_max=0.004, stale_from=None,
+                 stale_count=0):
         super().__init__()
+        # stale window: from outermost call number stale_from on, the next stale_count
+        # listing-type calls (ls, find) answer with the directory as of before the latest
+        # mutation below it (newest entry not yet visible)
+        self.stale_from, self.stale_left = stale_from, stale_count
         # faults: {k: kind} with kind in OSError / FileNotFoundError / 'half' / 'stale' /
         #         'exists-flip' (reported-only kind)
         self.faults = dict(faults or {})
@@ -88,6 +115,35 @@ class MonFS(LocalFileSystem):
             elif isinstance(v, (list, tuple)) and v and isinstance(v[0], str):
                 out.extend(v[:4])
         return out
+
+    def _stale_view(self, name, d, result):
+        """The listing of *d* without its most recently created entry (None if unknown)."""
+        d = d.rstrip("/")
+        prev = self.prev_state.get(d)
+        if prev is None:
+            return None
+        try:
+            now = sorted(os.listdir(d))
+        except OSError:
+            return None
+        newest = [x for x in now if x not in prev]
+        if not newest:
+            return None
+        hide = {os.path.join(d, x) for x in newest}
+
+        def hidden(p_):
+            p_ = str(p_)
+            return any(p_ == h or p_.startswith(h + "/") for h in hide)
+        if isinstance(result, dict):
+            return {k_: v for k_, v in result.items() if not hidden(k_)}
+        if isinstance(result, list):
+            out = []
+            for x in result:
+                name_ = x["name"] if isinstance(x, dict) else x
+                if not hidden(name_):
+                    out.append(x)
+            return out
+        return None
 
     def _remember_listing(self, op, paths):
         """Before a mutating call, remember the listing of the parents (for 'stale')."""
@@ -159,7 +215,21 @@ def _wrap(name):
                         return not orig(self, *a, **kw)
                     raise OSError(f"injected #{k} in {name}({paths[:1]})")
             r = orig(self, *a, **kw)
+            if (name in ("ls", "find") and self.stale_from is not None and k >= self.stale_from
+                    and self.stale_left > 0 and paths):
+                r2 = self._stale_view(name, paths[0], r)
+                if r2 is not None:
+                    with self.mon_lock:
+                        self.stale_left -= 1
+                        self.fired.append((k, name, paths[:1], "stale-window"))
+                    ev["outcome"] = "stale-listing"
+                    return r2
             ev["outcome"] = ev["outcome"] or "ok"
+            if name == "open" and "w" in str(mode) and self.rng is not None and self.delay_p > 0:
+                with self.mon_lock:
+                    d_ = self.rng.random() * self.delay_max * 8 if self.rng.random() < 0.7 else 0.0
+                if d_:
+                    return _SlowCloseFile(r, d_)
             return r
         except BaseException as e:
             ev["outcome"] = f"raised:{type(e).__name__}"
@@ -216,7 +286,8 @@ def scan_tree(root):
 def dataset_snapshot(path, id_col="rid"):
     """Independent (pyarrow-only) reading of a packed / written dataset directory."""
     import pyarrow.parquet as pq
-    snap = {"listing": {}, "parts": {}, "spatial": None, "metadata_row_groups": None}
+    snap = {"listing": {}, "parts": {}, "spatial": None, "metadata_row_groups": None,
+            "metadata_detail": None}
     if not os.path.isdir(path):
         snap["listing"] = None
         return snap
@@ -240,7 +311,10 @@ def dataset_snapshot(path, id_col="rid"):
                 snap["spatial"] = {"unreadable": f"{type(e).__name__}"}
         elif name == "_metadata" and os.path.isfile(full):
             try:
-                snap["metadata_row_groups"] = pq.read_metadata(full).num_row_groups
+                md_ = pq.read_metadata(full)
+                snap["metadata_row_groups"] = md_.num_row_groups
+                snap["metadata_detail"] = [[md_.row_group(i).num_rows, md_.row_group(i).column(0).file_path]
+                                           for i in range(md_.num_row_groups)]
             except Exception as e:  # noqa: BLE001
                 snap["metadata_row_groups"] = f"unreadable:{type(e).__name__}"
     return snap
